@@ -4,6 +4,7 @@ import Xandikos.Driver.HttpDriver
 import Xandikos.Driver.PureDriver
 import Xandikos.Driver.CardDriver
 import Xandikos.Driver.CrashDriver
+import Xandikos.Driver.ConcDriver
 
 partial def loop {σ : Type} (h : IO.FS.Stream) (out : IO.FS.Stream) (st : σ)
     (step : σ → String → σ × String) : IO Unit := do
@@ -20,6 +21,7 @@ def main (args : List String) : IO UInt32 := do
   | ["store"] => loop stdin stdout ({} : Xandikos.StoreDriver.DState) Xandikos.StoreDriver.step; return 0
   | ["http"] => loop stdin stdout ({} : Xandikos.HttpDriver.HState) Xandikos.HttpDriver.step; return 0
   | ["card"] => loop stdin stdout ({} : Xandikos.CardDriver.CState) Xandikos.CardDriver.step; return 0
+  | ["conc"] => loop stdin stdout ({} : Xandikos.ConcDriver.QState) Xandikos.ConcDriver.step; return 0
   | ["crash"] => loop stdin stdout ({} : Xandikos.CrashDriver.CState) Xandikos.CrashDriver.step; return 0
   | ["pure"] => loop stdin stdout () Xandikos.PureDriver.step; return 0
   | ["pyurl"] => loop stdin stdout () Xandikos.PyDriver.urlStep; return 0
